@@ -22,7 +22,9 @@ def run(repo, res, tier):
     sk_bash.cmd_rule(repo, res, tier)
     sk_bash.fresh_rule(repo, res, tier)
     sk_bash.matchfn_rule(repo, res, tier)
-    c04.shared_cmd_ids(repo, res)  # V2: one command-id set numbers the _cmd_<id> functions and every table, main and within-word
+    c04.shared_cmd_ids(repo, res)
+    from vlib import rules_fieldcover as FC
+    FC.fieldcover(repo, res, "dfa::DFA::get_commands", "Inp", "cmd", "call:insert", min_matches=2)  # V2: one command-id set numbers the _cmd_<id> functions and every table, main and within-word
     c11.lookup_rule(repo, res)
     c11.ff_specialized_command(repo, res)
     common.run_traversals(repo, res, only={"check::specialize_nonterminals", "check::resolve_nonterminals"})
